@@ -31,6 +31,48 @@ SEARCH_SPECS = {
     "group_rep_min2": '<start> ::= "[" (<k> "=" <v> ";"){2,4} "]"\n<k> ::= "a" | "b"\n<v> ::= r"[0-9]"\n',
     "nested_quant": '<start> ::= <row> ";" <row>\n<row> ::= <x> "," <x>\n<x> ::= "1" | "2"\nwhere forall <r> in <start>.<row>: str(<r>.<x>) == "1"\n',
 }
+SEARCH_SPECS.update({
+    # computed repetitions over a parenthesised GROUP; the search starts from user-supplied inputs (strings) whose count has to change
+    "computed_group_seeded": '<start> ::= <rec>\n<rec> ::= <n> ":" (<k> "=" <v>){int(<n>)}\n<n> ::= "1" | "2" | "3" | "4" | "5"\n<k> ::= "a" | "b" | "c"\n<v> ::= "x" | "y" | "z"\nwhere int(<n>) >= 3\n',
+    "computed_symbol_seeded": '<start> ::= <n> ":" <it>{int(<n>)} "."\n<n> ::= "1" | "2" | "3" | "4" | "5"\n<it> ::= "p" | "q"\nwhere int(<n>) >= 3\n',
+    # an operator directly inside an operator of the same kind (?, *, +), with an equality whose repair PARSES the other side's text
+    "nested_option_eq": '<start> ::= <num> ";" <txt>\n<num> ::= <int> ("." <int> ("e" <int>)?)?\n<int> ::= <d>+\n<d> ::= "1" | "2" | "3"\n<txt> ::= r"[123](\\.[123]{1,2}){1,2}"\nwhere str(<num>) == str(<txt>)\n',
+    "nested_star_eq": '<start> ::= <lst> ";" <txt>\n<lst> ::= "[" (<d> ("," <d>)* "|")* "]"\n<d> ::= "1" | "2"\n<txt> ::= r"\\[([12](,[12]){0,2}\\|){0,2}\\]"\nwhere str(<lst>) == str(<txt>)\n',
+    "nested_plus_eq": '<start> ::= <lst> ";" <txt>\n<lst> ::= (<d> ("," <d>)+ "|")+\n<d> ::= "1" | "2"\n<txt> ::= r"([12](,[12]){1,2}\\|){1,2}"\nwhere str(<lst>) == str(<txt>)\n',
+    # computed repetitions over a bare terminal, and over a group that ENDS in a terminal
+    "computed_terminal": '<start> ::= <n> ":" "x"{int(<n>)} "."\n<n> ::= "1" | "2" | "3" | "4"\n',
+    "computed_group_trailing_terminal": '<start> ::= <n> ":" (<k> "=" <v> ";"){int(<n>)} "."\n<n> ::= "1" | "2" | "3" | "4"\n<k> ::= "a" | "b"\n<v> ::= "x" | "y"\nwhere int(<n>) >= 3\n',
+})
+# inputs the search is started from (Fandango.fuzz(initial_population=[...strings...]): parsed, then evolved)
+SEEDED = {
+    "computed_group_seeded": ["1:a=x", "2:a=xb=y", "2:c=za=y", "1:b=z"],
+    "computed_symbol_seeded": ["1:p.", "2:pq.", "2:qq."],
+}
+# recognisers of the languages whose repetition counts are COMPUTED (the independent derivation checker reads declared static
+# bounds only): every emitted text must be accepted
+import re as _re
+
+
+def _counted(pattern, unit):
+    rx = _re.compile(pattern)
+
+    def ok(text):
+        m = rx.fullmatch(text)
+        return bool(m) and len(m.group(2)) == unit * int(m.group(1))
+    return ok
+
+
+WORD_ORACLES = {
+    "computed_rep": _counted(r"([1-4]):((?:[a-e],)*)[A-Z]{3}", 2),
+    "computed_rep_symbol_before": _counted(r"([2-6])[xy]:([xy]*)\.", 1),
+    "computed_group_seeded": _counted(r"([1-5]):((?:[abc]=[xyz])*)", 3),
+    "computed_symbol_seeded": _counted(r"([1-5]):([pq]*)\.", 1),
+    "computed_terminal": _counted(r"([1-4]):(x*)\.", 1),
+    "computed_group_trailing_terminal": _counted(r"([1-4]):((?:[ab]=[xy];)*)\.", 4),
+    "nested_option_eq": _re.compile(r"[123]+(\.[123]+(e[123]+)?)?;[123](\.[123]{1,2}){1,2}").fullmatch,
+    "nested_star_eq": _re.compile(r"\[([12](,[12])*\|)*\];\[([12](,[12]){0,2}\|){0,2}\]").fullmatch,
+    "nested_plus_eq": _re.compile(r"([12](,[12])+\|)+;([12](,[12]){1,2}\|){1,2}").fullmatch,
+}
 # generator specs: name -> (spec text, symbol -> oracle(list of source texts) -> set of admissible texts or None for "any text matching the rule")
 GEN_SPECS = {
     "gen_const": (family.SPECS["gen_const"], {"<a>": lambda src: {"7"}}),
@@ -237,7 +279,8 @@ def run_pid(pid, tier, seed):
                 def go():
                     fan = fandango_of(text, sd)
                     random.seed(sd)
-                    return fan, fan.fuzz(desired_solutions=6, population_size=pop, max_generations=12 if tier == "quick" else 40, random_seed=sd)
+                    extra = {"initial_population": list(SEEDED[name])} if name in SEEDED else {}
+                    return fan, fan.fuzz(desired_solutions=6, population_size=pop, max_generations=12 if tier == "quick" else 40, random_seed=sd, **extra)
 
                 res, to = with_budget(go, 120)
                 if to or res is None:
@@ -251,6 +294,8 @@ def run_pid(pid, tier, seed):
                         ok, why = valid(fan.grammar, t)
                         if not ok:
                             record(name, "search_emits_invalid_tree", why, text)
+                        if name in WORD_ORACLES and not WORD_ORACLES[name](t.to_string()):
+                            record(name, "search_emits_text_outside_language", f"emitted {t.to_string()!r}: not a word of the spec's language (recogniser written for this spec; computed repetition counts included)", text)
                     else:
                         for p in check_generators(t, gens[name][1]):
                             record(name, "generator_field_not_generator_output", p, text)
@@ -314,12 +359,16 @@ def replay(pid, name):
     for sd in range(12):
         fan = fandango_of(text, sd)
         _r.seed(sd)
-        sols = fan.fuzz(desired_solutions=6, population_size=10, max_generations=30, random_seed=sd)
+        extra = {"initial_population": list(SEEDED[name])} if name in SEEDED else {}
+        sols = fan.fuzz(desired_solutions=6, population_size=10, max_generations=30, random_seed=sd, **extra)
         for t in sols:
             if pid == "C01":
                 ok, why = valid(fan.grammar, t)
                 if not ok:
                     print("INVALID", repr(t.to_string()), why)
+                    bad += 1
+                if name in WORD_ORACLES and not WORD_ORACLES[name](t.to_string()):
+                    print("NOT IN THE LANGUAGE (recogniser)", repr(t.to_string()))
                     bad += 1
             else:
                 for p in check_generators(t, GEN_SPECS[name][1]):
